@@ -254,7 +254,7 @@ func runC05(c *rt.Ctx) {
 	})
 	c.Exhaustive("each of the 32 hex positions x 22 digit characters over 6 backgrounds x 4 rule combinations x {plain, URN} x {string, []byte}")
 
-	nRand := c.Pick(1000000, 10000000)
+	nRand := c.Pick(1000000, 40000000)
 	c.Parallel("random-ids", 0, func(w *rt.W) {
 		for i := 0; i < nRand/w.NShards; i++ {
 			id := uu.ID{Higher: w.Rng.U64(), Lower: w.Rng.U64()}
